@@ -251,6 +251,10 @@ def handle (op : String) (fs : List (String × String)) : String :=
   else if op == "gnames.readback" then
     -- direct check run by the harness on the real code (C20_install, C20_stable_again, C20_unique)
     "ok"
+  else if op == "gnames.pure" then
+    -- direct check run by the harness on the real code: the query neither changes the font nor
+    -- returns memory shared with it (the model is a function of the font's value)
+    "ok"
   else if op == "gnames.stable" then
     -- direct check run by the harness on the real code: repeated calls agree (C20_stable_order, C20_stable_again)
     "ok"
